@@ -19,6 +19,7 @@ import Driver.Link
 import Driver.MdDrv
 import Driver.Layout
 import Driver.MdsFile
+import Driver.Diag
 open Driver
 
 def allHandlers : List Handler :=
@@ -38,6 +39,7 @@ def allHandlers : List Handler :=
   ++ MdDrvD.handlers
   ++ LayoutD.handlers
   ++ MdsFileD.handlers
+  ++ DiagD.handlers
 
 def answerModel (cmd arg : String) : String :=
   match allHandlers.find? (·.cmd == cmd) with
